@@ -327,7 +327,7 @@ CHECKS["C12"] = {
             "start-up and restore), or while idle; after each death the file is read back (complete JSON document, equal to the model "
             "before or after the command in flight, equal to the model in force when none was) and the next incarnation's `list` must "
             "show the same configuration. Non-trivial there = the kill landed while a command was in flight.",
-    "layers": [L("TestVF_C12", 500, 6000, qtimeout=180), L("TestVF_C12_Kill", 12, 150, shards=16, qshards=8, pkg="cmd", binary=True)],
+    "layers": [L("TestVF_C12", 500, 6000, qtimeout=400), L("TestVF_C12_Kill", 12, 150, shards=16, qshards=8, pkg="cmd", binary=True)],
     "technique": "crash-point enumeration driven by property-based testing (rapid): every step boundary of every generated command's snapshot write, with generated interleavings of overlapping writers; plus real SIGKILLs of the built binary at generated syscall boundaries (strace fault injection) across restarts",
     "level_text": "Every step boundary of the snapshot write of every generated command is visited (enumeration inside each case); histories and interleavings are sampled. The process-kill layer samples kill instants at syscall granularity.",
     "level_note": "In-process layer: a killed process is modelled as 'the file as it is at a step boundary'. Process layer: real kills at syscall entry (needs ptrace; without it every case is counted as excluded and the layer decides nothing). Torn writes inside a single write(2), fsync and power loss are outside the statement.",
@@ -343,10 +343,10 @@ CHECKS["C18"] = {
             "frames. TestVF_C18_Hostile: one command (deploy, rollout deploy, pause, stop, rollout set) issued in a generated reachable state "
             "with boundary argument values the CLI accepts (zero / negative durations and sizes, out-of-range percentages, hostile "
             "messages); oracle: no panic in any goroutine (the process survives), the command returns, requests still end. Non-trivial = at least two operations touched the same service. Distinct by plan hash.",
-    "layers": [L("TestVF_C18", 150, 2500, race_always=True, crash_is_violation=True, qtimeout=150, ttimeout=1800, qenv={"GORACE": "halt_on_error=0"}, tenv={"GORACE": "halt_on_error=0"}),
-               L("TestVF_C18_Hostile", 150, 2000, crash_is_violation=True, qtimeout=240, ttimeout=1800),
-               L("TestVF_C18_LockStress", 5, 40, qshards=6, crash_is_violation=True, qtimeout=90, ttimeout=900),
-               L("TestVF_C18_ProbeVsCommand", 300, 3000, crash_is_violation=True, qtimeout=90, ttimeout=900)],
+    "layers": [L("TestVF_C18", 150, 2500, race_always=True, crash_is_violation=True, qtimeout=600, ttimeout=1800, qenv={"GORACE": "halt_on_error=0"}, tenv={"GORACE": "halt_on_error=0"}),
+               L("TestVF_C18_Hostile", 150, 2000, crash_is_violation=True, qtimeout=600, ttimeout=1800),
+               L("TestVF_C18_LockStress", 4, 40, qshards=6, crash_is_violation=True, qtimeout=420, ttimeout=1800),
+               L("TestVF_C18_ProbeVsCommand", 300, 3000, crash_is_violation=True, qtimeout=420, ttimeout=1800)],
     "rule_extra": " TestVF_C18_LockStress: 1-3 goroutines repeat pause / resume / stop on a service 200-800 times as fast as they can while "
                   "1-4 others keep setting / stopping the split, listing, redeploying and routing requests (no hooks, no virtual-time waits); "
                   "the case must end and leave a working proxy: a hang shows in the deadline's goroutine dump as goroutines blocked on sync "
